@@ -215,3 +215,10 @@ func sortedKeys[V any](m map[string]V) []string {
 	sort.Strings(ks)
 	return ks
 }
+
+func min(a, b int) int {
+	if a < b {
+		return a
+	}
+	return b
+}
